@@ -3,10 +3,114 @@ import common
 from checks import ikeprop
 
 
+def status_query(v):
+    """The local status query (through the real main_loop) reports exactly the table's IKE_SAs with SPIs, role, state and CHILD_SAs."""
+    import json
+    import random
+    import mainloop
+    n = 0
+    for schedule in (['legit', 'control'], ['legit', 'legit', 'control'], ['legit', 'legit', 'legit', 'control', 'legit', 'control'],
+                     ['legit', 'legit', 'acquire_unknown_index', 'control']):
+        loop = mainloop.Loop(seed=common.SEED)
+        loop.rnd = random.Random(common.SEED)
+        tables = []
+        orig = mainloop.FakeConn.sendall
+
+        def sendall(self, data, loop=loop, tables=tables):
+            orig(self, data)
+            tables.append([{'my_spi': bytes(s.my_spi).hex(), 'peer_spi': bytes(s.peer_spi).hex(), 'is_initiator': bool(s.is_initiator), 'state': s.state.name,
+                            'children': [(bytes(c.inbound_spi).hex(), bytes(c.outbound_spi).hex(), c.mode.name, c.proposal.protocol_id.name) for c in s.child_sas]}
+                           for s in loop.w.ctl['A'].ike_sas])
+        mainloop.FakeConn.sendall = sendall
+        try:
+            ex = loop.run([{'type': 'legit'} if k == 'legit' else {'type': 'lazy', 'kind': k} for k in schedule])
+        finally:
+            mainloop.FakeConn.sendall = orig
+            loop.w.close()
+        if ex is not None:
+            v.violation(f'status query scenario ended with {type(ex).__name__}: {ex}', {'schedule': schedule}, signature={'component': 'status:escape'})
+            continue
+        for raw, table in zip(loop.status_replies, tables):
+            n += 1
+            try:
+                rep = json.loads(raw.decode())
+            except ValueError:
+                v.violation('the status reply is not JSON', {'raw': raw[:200].hex()}, signature={'component': 'status:json'})
+                continue
+            got = [(r.get('my_spi'), r.get('peer_spi'), r.get('is_initiator'), r.get('state'), len(r.get('child_sas', []))) for r in rep]
+            want = [(t['my_spi'], t['peer_spi'], t['is_initiator'], t['state'], len(t['children'])) for t in table]
+            ok = got == want
+            for r, t in zip(rep, table):
+                for (i, o, mode, proto), c in zip(t['children'], r.get('child_sas', [])):
+                    text = json.dumps(c)
+                    ok = ok and i in text and o in text and mode in text and proto in text
+            if not ok:
+                v.violation('the status query does not report exactly the IKE_SAs of the table', {'reported': rep, 'table': table}, signature={'component': 'status:content'})
+    v.coverage['status_queries'] = n
+
+
+def routing_probes(v):
+    """Authentic datagrams with every header SPI / flag combination: handed to the IKE_SA whose local SPI is selected by the initiator
+    flag, or dropped without changing anything (unknown SPI, swapped SPIs)."""
+    import probes
+    import wire_ref as W
+    import world as wd
+    import ikereplay
+    ikereplay.install_observers()
+    n = 0
+    w = wd.World(seed=common.SEED)
+    w.handler_runs, w.routed, w.exec_count = [], [], {}
+    try:
+        # two IKE_SAs per endpoint (simultaneous initiation)
+        for first, e in ((w.acquire('A', sport=0, dport=0), 'A'), (w.acquire('B', sport=0, dport=0), 'B')):
+            m, cur = first, e
+            while m is not None:
+                nxt = w.peer_of(cur)
+                m = w.dispatch(nxt, m, cur)
+                cur = nxt
+        for sa in list(w.sas('A')):
+            peer = probes.peer_sa_of(w, sa)
+            if peer is None:
+                continue
+            others = [x for x in w.sas('B') if x is not peer]
+            variants = {
+                'right': dict(),
+                'unknown responder spi': dict(spi_r=b'\x7e' * 8) if sa.is_initiator else dict(spi_i=b'\x7e' * 8),
+                'swapped spis': dict(spi_i=sa.spi_r, spi_r=sa.spi_i),
+                'flag cleared': dict(initiator=not sa.is_initiator),
+                'other sa spi': (dict(spi_r=others[0].my_spi) if sa.is_initiator else dict(spi_i=others[0].my_spi)) if others else None,
+            }
+            for name, over in variants.items():
+                if over is None:
+                    continue
+                data = probes.seal(sa, 37, False, sa.my_msg_id, [], **over)
+                before = probes.world_snapshot(w)
+                w.routed.clear()
+                w.handler_runs.clear()
+                reply = w.dispatch(w.peer_of(sa._verif_owner), data, sa._verif_owner)
+                after = probes.world_snapshot(w)
+                n += 1
+                if name == 'right':
+                    if not w.routed or w.routed[0] is not peer or reply is None:
+                        v.violation('an authentic request was not handed to the IKE_SA its header selects', {}, signature={'component': 'routing:right'})
+                    sa.my_msg_id += 1      # the harness spoke for `sa`: keep its counter in step with what the peer now expects
+                else:
+                    if reply is not None or probes.diff_snapshots(before, after) or w.handler_runs:
+                        v.violation(f'datagram with {name} was not dropped without effect', {'diff': probes.diff_snapshots(before, after)},
+                                    signature={'component': 'routing:drop', 'variant': name})
+    except wd.Escape as ex:
+        v.violation(f'routing probe: {ex}', {}, signature={'component': 'routing:escape'})
+    finally:
+        w.close()
+    v.coverage['routing_probes'] = n
+
+
 def run(tier, replay=None):
     v = common.Verdict('C16', tier, 'model_checking')
     scen = ['estab', 'init'] if tier == 'quick' else ['estab_loss', 'init3', 'init_ke', 'init_cookie', 'estab_rekey_ke']
     ikeprop.run(v, scen)
+    routing_probes(v)
+    status_query(v)
     v.assumptions += ['two endpoints; bounds of each scenario as listed in coverage.scenarios[*].constants',
                       'SPI tokens: the n-th 4/8-octet os.urandom draw of endpoint e is <<e,n>>']
     return v.finish()
